@@ -159,6 +159,18 @@ theorem complex_bulk_reads_generic {t : ElemTy} {xs : List Bytes} (v : Vec t (2 
     decodeComplexSlice F BEVE t (encodeGenericComplex t xs) = .ok xs :=
   complex_bulk_reads_generic_of F (by decide) v
 
+/-- Why the fact matters: with decoders that hand serde's empty vector `05 00` straight to
+`beve::read_typed_slice` (`emptyGeneric := false`), the bulk decoder rejects what the generic encoder
+produced for `Vec::<f64>::new()`; with the fact set it reads the empty vector. -/
+example : decodeTypedSlice { F with emptyGeneric := false } BEVE ⟨0, 3⟩ (encodeGeneric ⟨0, 3⟩ []) =
+    .error (.beve .invalidType) := by decide
+example : decodeTypedSlice { F with emptyGeneric := true } BEVE ⟨0, 3⟩ (encodeGeneric ⟨0, 3⟩ []) = .ok [] := by
+  decide
+
+/-- Non-vacuity (complex): two `Complex<i16>` elements, blocks of width 4. -/
+example : Vec ⟨1, 1⟩ (2 * (ElemTy.mk 1 1).width) [[0x00, 0x80, 0xff, 0x7f], [1, 0, 0xff, 0xff]] :=
+  ⟨by decide, by decide, by decide⟩
+
 /-! ### aligned form -/
 
 /-- The base offset the builder pads for is congruent (mod 16, hence modulo every element alignment)
@@ -363,6 +375,13 @@ theorem wrong_format_rejected (fmt : Nat) (hf : fmt ≠ BEVE) (t : ElemTy) (body
   · simp [sliceHandler, serverFormatOk, g3, hb]
   · simp [sliceRefHandler, serverFormatOk, g3, hb]
 
+example : (2 : Nat) ≠ BEVE ∧ decodeTypedSlice F 2 ⟨0, 3⟩ (encodeTyped ⟨0, 3⟩ [[1, 2, 3, 4, 5, 6, 7, 8]]) =
+    .error .unexpectedBodyFormat := by decide
+
+/-- Wrong element type, concretely: an f32 array offered to an f64 decoder / route, both wire forms. -/
+example : decodeTypedSlice F BEVE ⟨0, 3⟩ (bodyTypedSlice ⟨0, 2⟩ [[1, 2, 3, 4], [5, 6, 7, 8]]) = .error (.beve .mismatch) ∧
+    sliceRefHandler F ⟨0, 3⟩ BEVE 0 (encodeAligned ⟨0, 2⟩ [[1, 2, 3, 4], [5, 6, 7, 8]] 52) = .err .mismatch := by decide
+
 /-! ### streaming writers -/
 
 /-- `write_message_typed_slice(w, h, q, xs)` emits the frame of the message the buffered builder
@@ -385,6 +404,12 @@ theorem streaming_eq_buffered (h : Header) (q : Bytes) {t : ElemTy} {xs : List B
     cases q <;> simp [encodeTyped, Message.toVec] <;> rfl
   · simp only [writeMessageTypedSlice, writeMessageTypedSliceRaw, writeMessageStreaming, bodyTypedSlice, ← hl]
     rfl
+
+/-- Non-vacuity: a caller header with stale length fields and another body format meets the hypotheses. -/
+example : let h : Header := ⟨7, REPE_SPEC, REPE_VERSION, 1, 0, 99, 9, 11, 1, 3, 4096⟩
+    h.spec = REPE_SPEC ∧ h.version = REPE_VERSION ∧ h.reserved = 0 ∧ h.notify = (if true then 1 else 0) ∧
+    writeMessageTypedSlice h [0x2f, 0x61] ⟨2, 1⟩ [[1, 2], [3, 4]] =
+      (sliceBuilder 99 true 4096 1 [0x2f, 0x61] (bodyTypedSlice ⟨2, 1⟩ [[1, 2], [3, 4]])).build.toVec := by decide
 
 theorem complex_streaming_eq_buffered (h : Header) (q : Bytes) {t : ElemTy} {xs : List Bytes}
     (hb : Blocks (2 * t.width) xs) (hs : h.spec = REPE_SPEC) (hv : h.version = REPE_VERSION)
@@ -481,5 +506,11 @@ theorem call_echo {t : ElemTy} {xs : List Bytes} (v : Vec t t.width xs) (k : Cli
       Except.map, SliceInput.elems, bodyTypedSlice, liftB] at gB ⊢
     simp [gB]
   · simp [call, serve, requestBody, clientDecode, gG, liftB]
+
+/-- The side condition is needed: the aligned form is a distinct BEVE type, a plain bulk route answers
+`ParseError` — and with it the call goes through, borrowed or not. -/
+example : call F .aligned .slice ⟨0, 3⟩ 5 0 [[1, 2, 3, 4, 5, 6, 7, 8]] = .error (.server PARSE_ERROR) ∧
+    call F .aligned .sliceRef ⟨0, 3⟩ 5 3 [[1, 2, 3, 4, 5, 6, 7, 8]] = .ok [[1, 2, 3, 4, 5, 6, 7, 8]] ∧
+    call F .serde .sliceRef ⟨0, 3⟩ 5 3 [] = .ok [] := by decide
 
 end Repe.C08
